@@ -1682,3 +1682,15 @@ V("c09-silent-difference", "C09", "silent", UT, _ADJN, "            adj_neighbor
 V("c09-silent-hce-else", "C09", "silent", UT, _HCE, "    try:\n        pdag_to_dag(pdag)\n    except ValueError:\n        return False\n    return True\n", what="success returned after the try")
 V("c09-silent-hce-else-clause", "C09", "silent", UT, _HCE, "    try:\n        pdag_to_dag(pdag)\n    except ValueError:\n        return False\n    else:\n        return True\n", what="success returned in the else clause")
 V("c09-silent-raise-message", "C09", "silent", UT, "            raise ValueError(\"PDAG %s does not admit consistent extension\" % oP)", "            raise ValueError(\"no consistent extension for\\n%s\" % (oP,))", what="message text")
+
+# ------------------------------------------------------------------------------- round 11 inspired (C02: per-node tables prepared by the constructor)
+_AN_ND = "        self.noise_distributions = deepcopy(noise_distributions)\n"
+_AN_SEL = "                assignment = np.transpose(self.assignments[i](X[:, self.A[:, i] != 0]))\n"
+V("c02-parent-table-set-order", "C02", "fire", AN, _AN_ND, _AN_ND + "        self._parents = [list(utils.pa(i, self.A)) for i in range(self.p)]\n",
+  more=[(AN, _AN_SEL, "                assignment = np.transpose(self.assignments[i](X[:, self._parents[i]]))\n")], rule="CASES.anm", what="parent columns in set-iteration order (differs from increasing order from node 8 on)")
+V("c02-silent-parent-table-sorted", "C02", "silent", AN, _AN_ND, _AN_ND + "        self._parents = [sorted(utils.pa(i, self.A)) for i in range(self.p)]\n",
+  more=[(AN, _AN_SEL, "                assignment = np.transpose(self.assignments[i](X[:, self._parents[i]]))\n")], what="parent index lists prepared once, in increasing order")
+V("c02-silent-parent-table-flatnonzero", "C02", "silent", AN, _AN_ND, _AN_ND + "        self._parents = [np.flatnonzero(self.A[:, k]) for k in range(len(A))]\n",
+  more=[(AN, _AN_SEL, "                assignment = np.transpose(self.assignments[i](X[:, self._parents[i]]))\n")], what="parent index arrays prepared once from the stored matrix")
+V("c02-parent-table-rows", "C02", "fire", AN, _AN_ND, _AN_ND + "        self._parents = [np.flatnonzero(self.A[k, :]) for k in range(len(A))]\n",
+  more=[(AN, _AN_SEL, "                assignment = np.transpose(self.assignments[i](X[:, self._parents[i]]))\n")], rule="CASES.anm", what="children instead of parents in the prepared table")
